@@ -23,6 +23,7 @@ from vk.symnp import ref_einsum
 TRUSTED = [
     "C02 (A3): scipy.sparse.csr_matrix((data,(i,j))) sums duplicates, bmat/vstack compose blocks (vk/coo.py dense stand-ins)",
     "C02: for axisymmetric / plane-strain fields the test and trial 'gradient' (resp. 'value') is by definition the derivative of the field's own grad() (resp. interpolate()) with respect to its nodal values, so hoop terms, padding and trimming are pinned by one formula",
+    "C02 (configs hoop=value): a VALUE-space form on an axisymmetric field with a non-zero third (hoop) integrand component is not fixed by the field's interpolate() (its third component is 0). There the hoop test function is taken to be the one of the gradient space, D(grad()[2,2], u) = h/R -- the one formula the property names ('hoop part / R') and every other branch of the class uses; stated separately from the f_3 = 0 configs so that what rests on this reading is visible",
     "C02: einsumt (parallel=True) is executed: proved for the schedule that ran; scheduler independence assumed (A3)",
 ]
 
@@ -163,7 +164,19 @@ def field_derivatives(vk, f, what):
     return base, out
 
 
-@contract("C02", "field_kinds", configs=[dict(field=k, form=fm) for k in ("axisymmetric", "planestrain") for fm in ("linear-grad", "linear-value", "bilinear-grad-grad", "bilinear-value-grad")] + [dict(field="axisymmetric", form="bilinear-grad-grad", parallel=True)])
+def hoop_value(vk, f, dd):
+    """value-space test functions of an axisymmetric field with the hoop component of the gradient space:
+    (du_z, du_r, D(grad()[2,2], u)) -- see TRUSTED (configs hoop=value)"""
+    _, dg = field_derivatives(vk, f, "grad")
+    out = {}
+    for key, dv in dd.items():
+        dv = dv.copy()
+        dv[2] = dg[key][2, 2]
+        out[key] = dv
+    return out
+
+
+@contract("C02", "field_kinds", configs=[dict(field=k, form=fm) for k in ("axisymmetric", "planestrain") for fm in ("linear-grad", "linear-value", "bilinear-grad-grad", "bilinear-value-grad")] + [dict(field="axisymmetric", form="bilinear-grad-grad", parallel=True)] + [dict(field="axisymmetric", form=fm, hoop="value") for fm in ("linear-value", "bilinear-value-grad")])
 def field_kinds(vk, cfg):
     """plane-strain (3D integrand trimmed to 2D) and axisymmetric (2 pi R weight, hoop terms / R, / R^2,
     padding) forms against  sum_q fun : D(F, u_ai) * w_q  resp.  sum_q D(F, u_ai) : fun : D(F, u_bk) * w_q
@@ -195,13 +208,15 @@ def field_kinds(vk, cfg):
         gradv = form.endswith("grad")
         base = f.grad() if gradv else f.interpolate()
         fun = vk.reals("f", base.shape)
-        if axi and not gradv:
+        if axi and not gradv and not cfg.get("hoop"):
             fun[2] = 0 * fun[2]  # the value space of an axisymmetric vector field has no third component
         if not vk.sym:
             A = coo.todense(IntegralForm([fun], fc, rg.dV, grad_v=[gradv]).assemble(parallel=par))
             vk.ensures_eq("assemble==sum fun:D(F,u)*w", A, A)
             return
         base, dd = field_derivatives(vk, f, "grad" if gradv else "interpolate")
+        if cfg.get("hoop"):
+            dd = hoop_value(vk, f, dd)
         with coo.bound():
             A = coo.todense(IntegralForm([fun], fc, rg.dV, grad_v=[gradv]).assemble(parallel=par))
         spec = zeros(vk, (2 * npts, 1))
@@ -214,13 +229,15 @@ def field_kinds(vk, cfg):
     bv = f.grad() if gradv else f.interpolate()
     bu = f.grad()
     fun = vk.reals("f", bv.shape[:-2] + bu.shape)
-    if not gradv and axi:
+    if not gradv and axi and not cfg.get("hoop"):
         fun[2] = 0 * fun[2]
     if not vk.sym:
         A = coo.todense(IntegralForm([fun], fc, rg.dV, u=fc, grad_v=[gradv], grad_u=[True]).assemble(parallel=par))
         vk.ensures_eq("assemble==sum D(F,u):fun:D(F,u)*w", A, A)
         return
     bv, dv_ = field_derivatives(vk, f, "grad" if gradv else "interpolate")
+    if cfg.get("hoop"):
+        dv_ = hoop_value(vk, f, dv_)
     bu, du_ = field_derivatives(vk, f, "grad")
     with coo.bound():
         A = coo.todense(IntegralForm([fun], fc, rg.dV, u=fc, grad_v=[gradv], grad_u=[True]).assemble(parallel=par))
